@@ -131,10 +131,12 @@ def driver_source(schema, rmsgs, top_header, modes=walk.MODES, want=("dump", "en
     """one TU covering the given messages; message index = position in rmsgs"""
     em = walk.Emitter(schema, rmsgs)
     out = ['#include <%s>' % top_header, '#include "drv.hpp"', '#include <sstream>', 'VH_DEFINE_ASSERT_HANDLER', '']
+    enc_modes = tuple(modes) + (("tagc",) if "tag" in modes and "cur" in modes else ())
     for rm in rmsgs:
         for mode in modes:
             if "dump" in want:
                 out.append(em.dump_fn(rm, mode))
+        for mode in enc_modes:
             if "enc" in want:
                 out.append(em.enc_fn(rm, mode))
     out.append('static void run_dump(int mi, const std::string& mode, const unsigned char* p, std::size_t n, ::drv::Out& o)\n{')
@@ -146,7 +148,7 @@ def driver_source(schema, rmsgs, top_header, modes=walk.MODES, want=("dump", "en
     out.append('static void run_enc(int mi, const std::string& mode, unsigned char* p, std::size_t n, ::drv::In& in, ::drv::Chk& k)\n{')
     if "enc" in want:
         for i, rm in enumerate(rmsgs):
-            for mode in modes:
+            for mode in enc_modes:
                 out.append('  if(mi == %d && mode == "%s") return enc_%s_%s(p, n, in, k);' % (i, mode, mode, rm.name))
     out.append('  std::fprintf(stderr, "HARNESS-ERROR: no enc %d %s\\n", mi, mode.c_str()); std::exit(72);\n}')
     out.append(MAIN_TMPL)
